@@ -43,6 +43,9 @@ ASSUMPTIONS = [
 def run(ctx):
   ds_norm_identity(ctx)
   ds_excluded_parameters(ctx)
+  # sharded mode: the grafting accumulator (diagonal statistics) and both momenta are written back after every update
+  from . import C07
+  C07.sharded_record_conversion(ctx)
   graft_accumulator_precision(ctx)
   tearfree_maybe_graft(ctx)
   tearfree_dispatch(ctx)
